@@ -351,10 +351,42 @@ where T: Integer, for<'x> &'x T: IntOps<T> {
 
 impl<T> Ord for Ratio<T>
 where T: Integer, for<'x> &'x T: IntOps<T> {
+    // Exact comparison (denominators are positive). Compares integer parts, 
+    // then recurses on the reciprocals of the fractional parts, so that no 
+    // product of two operands is formed (cf. num-rational). 
     fn cmp(&self, other: &Self) -> cmp::Ordering {
-        let l = self.to_f64();
-        let r = other.to_f64();
-        l.total_cmp(&r)
+        fn div_floor<T>(a: &T, b: &T) -> (T, T)
+        where T: Integer, for<'x> &'x T: IntOps<T> {
+            // b > 0
+            let (q, r) = (a / b, a % b);
+            if r.is_negative() { 
+                (q - T::one(), r + b)
+            } else { 
+                (q, r)
+            }
+        }
+
+        if self.denom == other.denom { 
+            return self.numer.cmp(&other.numer)
+        }
+
+        let (p0, r0) = div_floor(&self.numer,  &self.denom);
+        let (p1, r1) = div_floor(&other.numer, &other.denom);
+
+        match p0.cmp(&p1) { 
+            cmp::Ordering::Equal => match (r0.is_zero(), r1.is_zero()) { 
+                (true,  true ) => cmp::Ordering::Equal,
+                (true,  false) => cmp::Ordering::Less,
+                (false, true ) => cmp::Ordering::Greater,
+                (false, false) => { 
+                    // 0 < r0/d0, r1/d1 < 1: compare d0/r0 and d1/r1, reversed. 
+                    let l = Ratio::new_raw(self.denom.clone(),  r0);
+                    let r = Ratio::new_raw(other.denom.clone(), r1);
+                    l.cmp(&r).reverse()
+                }
+            },
+            ord => ord
+        }
     }
 }
 
